@@ -344,6 +344,19 @@ func (vc *FnVC) applyContractN(fr *frame, st *state, sp *FuncSpec, key string, n
 			}
 		}
 	}
+	// ghost variables defined by this contract's ghostensures change with the call, whatever the inferred frame says
+	for g, gt := range vc.eng.db.GhostVars {
+		for _, cl := range sp.Clauses {
+			if cl.Kind == "ghostensures" && strings.Contains(cl.Src, g) {
+				h := "G:ghost." + g
+				vc.eng.regHeap(h, heapDesc{kind: "raw", raw: ghostSort(gt)})
+				if vc.hget(st, h) == vc.hget(pre, h) {
+					vc.havocHeap(st, h)
+				}
+				break
+			}
+		}
+	}
 	if !sp.Pure {
 		na := vc.freshConst("alloc", "Int")
 		vc.assume("true", fmt.Sprintf("(>= %s %s)", na, st.alloc))
